@@ -566,7 +566,11 @@ def n3(ctx, rep):
 def n5(ctx, rep, T):
     """Type-level ids are built from the item's own ident/attrs with no container rename rule."""
     n = 0
-    for f in ctx.fns(file='parser.rs'):
+    # inlined views; a private builder (`type_alias_item(ident, attrs, ..)`) is judged where it is expanded, with the caller's
+    # arguments in place of its parameters
+    views = [inline.view(ctx, g) for g in ctx.fns(file='parser.rs')]
+    expanded = {q for v_ in views for q in v_.get('inlined', [])}
+    for f in [v_ for v_ in views if v_['qual'] not in expanded]:
         for st in f['structs']:
             if st['path'].split('::')[-1] in ('RustStruct', 'RustTypeAlias', 'RustEnumShared', 'RustConst'):
                 idv = vt.strip(st['v']['fields'].get('id'))
